@@ -212,7 +212,7 @@ PROPS = {
         "det_trace": False,
         "quick": {"seconds": 60, "chunk": 150, "runs": 6000, "chunk_ms": 40000, "kill_after": 300},
         "thorough": {"seconds": 1200, "chunk": 400, "kill_after": 600},
-        "rule": ("one run = eight real listeners (plain DNS UDP+TCP, DoT, DoH h1/h2, DoQ, DNSCrypt UDP+TCP) on the simulated network with one "
+        "rule": ("one run = nine real listeners (plain DNS UDP+TCP, DoT, DoH over HTTP/1.1, HTTP/2 and HTTP/3, DoQ, DNSCrypt UDP+TCP) on the simulated network with one "
                  "deterministic pipeline function as handler; 4-24 items, each a well-formed query (names: mixed case, escaped "
                  "bytes, 1-127 labels, 255 octets, root; 10 qtypes incl. 0/65535/ANY/OPT/AXFR; 6 qclasses; RD/AD/CD/Z/TC/AA bits; "
                  "EDNS with sizes 0..65535, DO, NSID/cookie/padding up to 1200 bytes/unknown options) or a non-query (QR=1, "
@@ -234,7 +234,7 @@ PROPS = {
             "quic-go v0.48.2 runs in a copy whose timers fire 1us after their deadline (it compares now with the deadline strictly, which the exact fake clock never satisfies)",
         ],
         "components": {
-            "real": ["internal/dnsserver: ServerDNS (UDP, TCP), ServerTLS, ServerHTTPS (HTTP/1.1, h2), ServerQUIC, ServerDNSCrypt, normalize, message acceptance", "crypto/tls, net/http, x/net/http2, quic-go, ameshkov/dnscrypt (patched copy) on the simulated network"],
+            "real": ["internal/dnsserver: ServerDNS (UDP, TCP), ServerTLS, ServerHTTPS (HTTP/1.1, h2, h3), ServerQUIC, ServerDNSCrypt, normalize, message acceptance", "crypto/tls, net/http, x/net/http2, quic-go, ameshkov/dnscrypt (patched copy) on the simulated network"],
             "stub": ["network (simnet over netext.ListenConfig)", "handler (deterministic pipeline function)", "clock (synctest)"],
             "sim": "clock: testing/synctest; network: /verif/sim/simnet discrete-event mode with per-flow generators",
         },
@@ -278,7 +278,7 @@ PROPS = {
                  "name asks the handler for a response of a given size (0..66000 bytes, dense around 512, 1232, 4096 and 65535; "
                  "with or without an OPT record of the handler's own; records spread over sections), with request EDNS absent or "
                  "UDP size in {0, 300, 511, 512, 513, 1232, 4096, 65535}, DO, padding, keep-alive, NSID, unknown option; every "
-                 "query is sent over UDP, TCP, DoT, DoH, DoQ, DNSCrypt/UDP and DNSCrypt/TCP and judged on the bytes received (for "
+                 "query is sent over UDP, TCP, DoT, DoH (HTTP/2 and HTTP/3), DoQ, DNSCrypt/UDP and DNSCrypt/TCP and judged on the bytes received (for "
                  "DNSCrypt: the datagram as received and the message inside it); every run is non-trivial; "
                  "distinct = distinct decision-sequence hash"),
         "assumptions": [
@@ -325,7 +325,7 @@ PROPS = {
         "det_runs": 12,
         "quick": {"seconds": 30, "chunk": 2000, "runs": 100000},
         "thorough": {"seconds": 900, "chunk": 8000},
-        "rule": 'one run = a universe of 3 profiles (one possibly deleted) and 6 devices (attached/detached; auth off, on with/without password, DoH-only with/without password; linked IPs; dedicated IPs) in the real profile DB, 7 servers (plain DNS with linked IP on/off, plain DNS bound to an interface with dedicated addresses, DoT, DoH, DoQ, DNSCrypt) and 4-40 requests whose identifier travels by URL path, basic-auth user with absent/right/wrong/empty password, TLS server name (exact, upper case, nested label, other domain, bare domain), EDNS CPE-ID, dedicated local address or linked client address - also on the wrong transport and with path and credentials of different devices; human-readable identifiers for existing, unknown and to-be-created devices with automatic devices on/off; server names that merely end with the device domain; non-trivial = at least one device recognised; distinct = distinct decision-sequence hash.  wire part: real DoT, DoH (HTTP/1.1 and HTTP/2) and DoQ servers on the simulated network (immediate or timed with segmentation); 4-20 requests with server names, URL paths and basic-auth credentials from small sets, requests with the same transport and server name share a connection (HTTP/2 requests overlap on it); the handler records the request information it is given and every field must equal what the client sent with that request',
+        "rule": 'one run = a universe of 3 profiles (one possibly deleted) and 6 devices (attached/detached; auth off, on with/without password, DoH-only with/without password; linked IPs; dedicated IPs) in the real profile DB, 7 servers (plain DNS with linked IP on/off, plain DNS bound to an interface with dedicated addresses, DoT, DoH, DoQ, DNSCrypt) and 4-40 requests whose identifier travels by URL path, basic-auth user with absent/right/wrong/empty password, TLS server name (exact, upper case, nested label, other domain, bare domain), EDNS CPE-ID, dedicated local address or linked client address - also on the wrong transport and with path and credentials of different devices; human-readable identifiers for existing, unknown and to-be-created devices with automatic devices on/off; server names that merely end with the device domain; non-trivial = at least one device recognised; distinct = distinct decision-sequence hash.  wire part: real DoT, DoH (HTTP/1.1, HTTP/2 and HTTP/3) and DoQ servers on the simulated network (immediate or timed with segmentation); 4-20 requests with server names, URL paths and basic-auth credentials from small sets, requests with the same transport and server name share a connection (HTTP/2 requests overlap on it); the handler records the request information it is given and every field must equal what the client sent with that request',
         "assumptions": ['the reference (identify) is written from the statement and doc/; a malformed identifier may be answered with an error, the statement only demands that nobody is recognised', 'human-readable identifiers (<type>-<profile>-<name> in the URL path or TLS server name) are generated in normal form only; devices created on demand come from an idempotent backend stub', 'two parts compose: the wire part shows that the encrypted transports hand the handler exactly the server name, URL path and credentials the client sent with that request; the sysim part injects such values into dnsserver.RequestInfo and judges the decision'],
         "components": {
             "real": ["dnssvc.NewHandlers stack: initial, ratelimitmw (request info, device finding, access checks, rate-limit gate), preservice, mainmw (filtering, recording), preupstream, ecscache", "internal/dnssvc/internal/devicefinder", "internal/profiledb.Default (fed once by a stub storage)", "internal/access Global and DefaultProfile", "agdpasswd bcrypt authenticator"],
